@@ -78,7 +78,7 @@ def resize_case(pt, sw, sh, dw, dh, alg="conv", flt="Lanczos3", m=2, alpha=True,
     sn, sd = support if support is not None else FILTERS.get(flt, (1, 1))
     spec = {"args": {"ps": info["ps"], "alphaType": info["alpha"], "u8": info["u8"], "sw": sw, "sh": sh, "dw": dw, "dh": dh,
                      "box": sbox, "Q": Q, "alg": alg, "m": m if alg == "ss" else 1, "useAlpha": 1 if alpha else 0,
-                     "sn": sn, "sd": sd},
+                     "sn": sn, "sd": sd, "cpu": CPUS.index(cpu)},
             "rz": rz, "chk": list(chk), "nc": info["nc"], "pt": pt, "cpu": cpu, "flt": flt}
     if g is not None:
         spec["g"] = g
@@ -181,6 +181,9 @@ def hook_line(cid, h):
         else:
             o.update(alg=ALG_CODE[code], m=1)
         o["alpha"] = v[1] == 1
+        o["cpu"] = v[2] if len(v) > 2 else -1
+    elif k in ("premul", "divide"):
+        o["cpu"] = v[0] if v else -1
     elif k == "temp":
         o.update(w=v[0], h=v[1], ps=v[2], len0=v[3], len1=v[4], head=v[5])
     elif k == "alpha_take":
